@@ -9,6 +9,13 @@ the real object) goes to the Lean model `Qv.Prob.*`; compared exactly: `num_bina
 assignments in list / tuple / dict, boolean / spin form with both `spin` flags and on too-short containers,
 `solve_bruteforce` in both modes (same enumeration order).
 
+Round 6: weighted SetCover instances with ZERO weights (0, 0.0, Fraction(0)), equal weights and non-dyadic fractional
+weights (`gen_sc_zero`: a zero-weight subset is the only one containing some element in half of the instances — every
+cover needs it — and redundant otherwise, so that optimal covers with and without it tie), and the completeness of
+`solve_bruteforce(all_solutions=True)` on every class: the inherited solver must list the decoded form of EVERY ground state
+of its `to_qubo(...)` over all `num_binary_variables` labels exactly once (independent enumeration), SetCover's and
+JobSequencing's own solvers every optimal feasible solution exactly once.
+
 Oracle (written from the property text; shares nothing with the Lean model): an independent decoder, feasibility
 test and cost function per class, optimal cost by enumeration of the decision variables, the energies of
 `to_qubo()` and `to_quso()` on *all* `num_binary_variables` labels (numpy, exact integers).
@@ -27,6 +34,8 @@ RULE = ("instances of the seven classes with <= 16 formulation variables: number
         "user M, job lists / dicts with 1..3 workers, log_trick both ways; duplicated / empty / all-of-U sets, zero-length and "
         "equal-length jobs, odd vertex counts, isolated vertices; weights default, strictly above the documented threshold "
         "(ordinary, sub-unit, large-ratio, and a hair above), exactly at it (weak sentence), below it and free; "
+        "weighted SetCover with zero / equal / non-dyadic fractional subset weights (a zero-weight subset needed by every cover, or "
+        "redundant); solve_bruteforce(all_solutions=True) compared as a multiset with the independently enumerated optima on every class; "
         "large-magnitude exact integers (10**9 .. 10**15: number lists with part sums differing by 1 or 2 and with a "
         "perfect partition, job lengths, BILP rows) and SetCover weights differing by 2**-30 / 2**-40; the known-finding families "
         "gp-weighted (edge weights > 1) and gp-bidir (an edge in both directions) at the default A and a hair above the "
@@ -339,6 +348,46 @@ def gen_sc_star(rng, big=False):
     return dict(cls="SC", U=U, V=V, weights=w, log=rng.random() < 0.75, M=M, style=rng.choice(Labels.STYLES),
                 num="frac", A=A, B=B, wmode=wm)
 
+def gen_sc_zero(rng, big=False):
+    """weighted SetCover with zero, equal and fractional weights.  At least one subset has weight exactly 0 (legal: only
+    `max(weights) == 1` is required).  `needed`: the zero-weight subset is the only one containing some element, so every
+    cover — in particular every optimal one — picks it; otherwise it is redundant and every optimal cover comes with and
+    without it (ties: all_solutions must list both).  The other weights are all 1 (equal), or drawn from dyadic /
+    non-dyadic fractions (non-dyadic only with explicit Fraction A, B: `to_quso` halves ints into floats)."""
+    while True:
+        n = rng.randint(2, 4 if big else 3)
+        N = rng.randint(2, 5 if big else 4)
+        U = list(range(n))
+        V = [sorted(rng.sample(U, rng.randint(1, n))) for _ in range(N)]
+        zi = rng.randrange(N)
+        needed = rng.random() < 0.5
+        if needed:
+            a = rng.choice(V[zi])
+            V = [v if i == zi else [b for b in v if b != a] for i, v in enumerate(V)]
+        for b in sorted(set(U) - {x for v in V for x in v}):
+            j = rng.randrange(N)
+            V[j] = sorted(set(V[j]) | {b})
+        log = rng.random() < 0.5
+        cnt = max(sum(1 for v in V if x in v) for x in U)
+        nb = N + n * ((int(math.log2(cnt)) + 2) if log else cnt)
+        if nb <= (16 if big else 13):
+            break
+    wm = weights_mode(rng)
+    A, B = ab_weights(rng, wm, lambda B: B)
+    mode = rng.choice(["equal", "dyadic", "frac", "frac"])
+    if wm == "default" and mode == "frac":
+        mode = "dyadic"
+    pool = {"equal": ["1"], "dyadic": ["1", "1/2", "1/4", "3/4", "1/2"], "frac": ["1", "1/2", "1/3", "2/5", "2/3", "1/3"]}[mode]
+    w = [rng.choice(pool) for _ in range(N)]
+    w[zi] = "0"
+    if N >= 3 and rng.random() < 0.25:
+        w[rng.choice([i for i in range(N) if i != zi])] = "0"
+    nz = [i for i in range(N) if w[i] != "0"]
+    w[rng.choice(nz)] = "1"
+    kind = rng.choice(["frac", "int", "float"]) if (wm == "default" and mode != "frac") else "frac"
+    return dict(cls="SC", U=U, V=V, weights=w, log=log, M=None, style=rng.choice(Labels.STYLES), num=kind, A=A, B=B,
+                wmode=wm, zero=("needed" if needed else "redundant"))
+
 def gen_js_wide(rng, big=False):
     """JobSequencing with 1, 3 or 4 workers (several slack registers, or none)"""
     while True:
@@ -505,6 +554,15 @@ FIXED = [
          wmode="above", family="gp-bidir"),
     dict(cls="GP", edges=[[0, 1, "1"], [0, 2, "1"], [1, 0, "1"], [1, 2, "1"], [2, 0, "1"], [3, 3, "1"]], **{"as": "set"},
          style="int", num="int", A=None, B=None, wmode="default", family="gp-bidir"),
+    # zero / equal / fractional subset weights: the zero-weight subset is needed; is redundant; two optimal covers tie
+    dict(cls="SC", U=[0, 1], V=[[0], [1]], weights=["1", "0"], log=True, M=None, style="int", num="int", A=None, B=None,
+         wmode="default", zero="needed"),
+    dict(cls="SC", U=[0, 1, 2], V=[[0, 1], [2], [1, 2]], weights=["1", "0", "1/2"], log=False, M=None, style="int",
+         num="frac", A="3/2", B="1", wmode="above", zero="needed"),
+    dict(cls="SC", U=[0, 1, 2], V=[[0], [1, 2], [0, 1], [2]], weights=["0", "1", "1", "0"], log=True, M=None,
+         style="str", num="float", A=None, B=None, wmode="default", zero="needed"),
+    dict(cls="SC", U=[0, 1, 2], V=[[0, 1, 2], [1], [0, 2]], weights=["1", "0", "1/3"], log=True, M=None, style="tuple",
+         num="frac", A="7/5", B="1", wmode="above", zero="redundant"),
     # thresholds exactly met (weak sentence), and a zero-length job / a duplicated set / an odd vertex count
     dict(cls="SC", U=[0, 1, 2], V=[[0, 1], [2], [1, 2], [2]], weights=None, log=True, M=None, style="int", num="int",
          A="1", B="1", wmode="at"),
@@ -1180,6 +1238,28 @@ def oracle(ctx, case, prob, L, sols, impl):
                     bad.append(("C10:%s:solve-bruteforce" % t, why))
                 break
         ctx.count("oracle:brute:%s" % t)
+    # ---- solve_bruteforce(all_solutions=True) lists every best solution exactly once
+    res = impl.get("brute_all")
+    if isinstance(res, list) and not any(sig.endswith(":solve-bruteforce") or sig == D7 for sig, _ in bad):
+        want = None
+        if t in ("SC", "JS"):
+            # the class's own solver: every optimal feasible solution of the stated problem
+            if feas:
+                want = [sp.decode(x) for x in feas if sp.cost(x) == opt]
+        elif n <= 16:
+            # the inherited solver solves `to_qubo(...)`: the decoded form of every ground state over all n labels
+            E, _ = energies(Q, n, False)
+            want = [sp.decode(tuple(int(b) for b in bits(n)[g])[:sp.ndec]) for g in np.nonzero(E == E.min())[0]]
+        if want is not None:
+            key = (lambda r: json.dumps([sorted(r[0]), sorted(r[1])])) if t == "NP" else json.dumps
+            got_l, want_l = sorted(key(r) for r in res), sorted(key(w) for w in want)
+            ctx.count("oracle:brute-all:%s:%s" % (t, min(len(want_l), 5)))
+            if got_l != want_l:
+                absent = sorted(set(range(n)) - {int(i) for k in Q for i in k}) if t not in ("SC", "JS") else []
+                bad.append((D7 if (absent and len(got_l) < len(want_l)) else "C10:%s:solve-bruteforce-all" % t,
+                            "solve_bruteforce(all_solutions=True) returns %d solution(s) %s; the %s are %d: %s (each exactly once)" % (
+                                len(got_l), got_l[:12], "optimal feasible solutions" if t in ("SC", "JS") else
+                                "decoded ground states of to_qubo(%s) over all %d labels" % (kw, n), len(want_l), want_l[:12])))
     return bad
 
 # ------------------------------------------------------------------ tolerance family (BILP)
@@ -1277,6 +1357,8 @@ def process(ctx, cases, dense=False):
         impl = run_impl(c, prob, L, sols, do_brute)
         ctx.case(c, nontrivial(c, impl))
         ctx.count("%s:%s%s" % (t, c["wmode"], ":log" if c.get("log") else ""))
+        if c.get("zero"):
+            ctx.count("SC:zero-weight-subset:" + c["zero"])
         ctx.count("nvars:%02d" % impl["nvars"])
         ctx.count("sols", len(sols))
         if do_brute:
@@ -1353,6 +1435,7 @@ def gen_all(ctx):
         if t in TARGETED:
             cases += [TARGETED[t](rng, big=(i % 3 == 0)) for i in range(max(12, per // 5))]
     cases += [gen_big(rng) for _ in range(ctx.scale(24, 240))]
+    cases += [gen_sc_zero(rng, big=(i % 4 == 0)) for i in range(ctx.scale(40, 400))]
     for fam in ("gp-weighted", "gp-bidir"):
         cases += [gen_gp_family(rng, fam) for _ in range(ctx.scale(12, 120))]
     cases += [malformed(rng) for _ in range(ctx.scale(30, 200))]
@@ -1397,6 +1480,7 @@ def search(ctx):
         extra += [GEN[t](ctx.rng) for _ in range(150)]
     for t in TARGETED:
         extra += [TARGETED[t](ctx.rng, big=(i % 2 == 0)) for i in range(120)]
+    extra += [gen_sc_zero(ctx.rng, big=(i % 2 == 0)) for i in range(120)]
     process(ctx, extra, dense=True)
 
 def replay(ctx, payload):
